@@ -5,7 +5,9 @@
 package script
 
 import (
+	"bytes"
 	"cmp"
+	"encoding/json"
 	"slices"
 
 	"pgregory.net/rapid"
@@ -21,6 +23,7 @@ import (
 //	put X Y      key-value kinds: Put(X, Y); elsewhere add X
 //	rem X        set/map Remove(X); list Remove(index X mod size); stacks, queues, heaps: Pop/Dequeue
 //	clear
+//	load Xs      FromJSON of the document that lists Xs (an array, or an object x:x for key-value kinds)
 type Op struct {
 	O  string `json:"o"`
 	X  int    `json:"x,omitempty"`
@@ -47,13 +50,13 @@ var (
 	StringDomain = Domain[string]{"string", []string{"a", "b", "c", "ab", "1", "2", "", " ", "q\"x", "é<&>", " ", "b\\", "null", "[]", "a\":\"c", "\t\n", "u\x1f4", "\x7f", "\x00", "\U000e0001"}}
 )
 
-// BigIntDomain has 260 values (contents of dozens to hundreds of elements);
+// BigIntDomain has 704 values (contents of dozens to hundreds of elements);
 // FloatDomain holds finite float64 values whose JSON text is unusual: exponent
 // forms, negative zero, values near the limits of exact integers.
 var (
 	BigIntDomain = func() Domain[int] {
 		d := Domain[int]{Name: "bigint"}
-		for i := 0; i < 256; i++ {
+		for i := 0; i < 700; i++ {
 			d.Elems = append(d.Elems, i*3-100)
 		}
 		d.Elems = append(d.Elems, 1<<62, -(1 << 62), 1<<53+1, 1000000007)
@@ -62,13 +65,34 @@ var (
 	FloatDomain = Domain[float64]{"float", []float64{0, 1, -1, 0.5, 2.5, 1e21, 1e-7, -1e300, 123456789.125, 9007199254740993, 3.141592653589793, 1e20, 100, -0.1, 5e-324, 1.7976931348623157e308}}
 )
 
-// GenOpsBig draws a long state-building script (bulk adds of up to 60 values).
+// noLoad: float keys are not JSON object keys, so key-value kinds over the float domain never load.
+func noLoad(kind string, n int) bool {
+	return all.KeyValue(kind) && n == len(FloatDomain.Elems)
+}
+
+// GenOpsBig draws a long state-building script (bulk adds of up to 60 values,
+// often starting with one fill of 40..400 values, loads of long documents).
 func GenOpsBig(t *rapid.T, kind string, n int) []Op {
 	var ops []Op
 	kv := all.KeyValue(kind)
+	if rapid.IntRange(0, 2).Draw(t, "fill") != 0 {
+		k := rapid.IntRange(40, 400).Draw(t, "fillsize")
+		start := rapid.IntRange(0, n-1).Draw(t, "fillstart")
+		xs := make([]int, k)
+		for i := range xs {
+			xs[i] = (start + i*7) % n
+		}
+		o := "addn"
+		if rapid.IntRange(0, 3).Draw(t, "fill-by-load") == 0 {
+			o = "load"
+		}
+		ops = append(ops, Op{O: o, Xs: xs})
+	}
 	for chunk := 0; chunk < 4; chunk++ {
 		part := rapid.SliceOfN(rapid.Custom(func(t *rapid.T) Op {
-			switch dom.Weighted(t, "op", 25, 25, 20, 28, 2) {
+			switch dom.Weighted(t, "op", 25, 25, 20, 28, 2, 4) {
+			case 5:
+				return Op{O: "load", Xs: rapid.SliceOfN(rapid.IntRange(0, n-1), 0, 150).Draw(t, "doc")}
 			case 0:
 				return Op{O: "add", X: rapid.IntRange(0, n-1).Draw(t, "x")}
 			case 1:
@@ -119,9 +143,37 @@ func Apply[E cmp.Ordered](h *all.H[E], d Domain[E], op Op) {
 		}
 	case "clear":
 		h.Clear()
+	case "load":
+		if err := h.FromJSON(LoadDoc(h.Cfg.Kind, d, op.Xs)); err != nil {
+			panic("script: load of a well-formed document failed: " + err.Error())
+		}
 	default:
 		panic("script: bad op " + op.O)
 	}
+}
+
+// LoadDoc builds the JSON document of a "load" op.
+func LoadDoc[E cmp.Ordered](kind string, d Domain[E], xs []int) []byte {
+	if all.KeyValue(kind) {
+		m := map[E]E{}
+		for _, x := range xs {
+			m[d.At(x)] = d.At(x)
+		}
+		b, err := json.Marshal(m)
+		if err != nil {
+			panic(err)
+		}
+		return b
+	}
+	vals := make([]E, len(xs))
+	for i, x := range xs {
+		vals[i] = d.At(x)
+	}
+	b, err := json.Marshal(vals)
+	if err != nil {
+		panic(err)
+	}
+	return b
 }
 
 // Model is the reference state of a container after a script, per family.
@@ -240,7 +292,50 @@ func (m *Model[E]) Apply(d Domain[E], op Op) {
 		}
 	case "clear":
 		m.Seq, m.Map, m.Order, m.Enqueued = nil, map[E]E{}, nil, 0
+	case "load":
+		m.Seq, m.Map, m.Order, m.Enqueued = nil, map[E]E{}, nil, 0
+		switch fam {
+		case "stack":
+			if m.Cfg.Kind == "arraystack" { // serialised bottom-to-top
+				for _, x := range op.Xs {
+					m.Seq = slices.Insert(m.Seq, 0, d.At(x))
+				}
+			} else { // linked stack: top-to-bottom
+				for _, x := range op.Xs {
+					m.Seq = append(m.Seq, d.At(x))
+				}
+			}
+		case "map", "bidi", "tree":
+			// the document is an object x:x; key order of the linked map = sorted key text
+			// (encoding/json writes map keys sorted), duplicates collapse
+			doc := map[E]E{}
+			for _, x := range op.Xs {
+				doc[d.At(x)] = d.At(x)
+			}
+			keys := make([]E, 0, len(doc))
+			for k := range doc {
+				keys = append(keys, k)
+			}
+			slices.SortFunc(keys, func(a, b E) int { return cmp.Compare(keyText(a), keyText(b)) })
+			for _, k := range keys {
+				m.put(k, k)
+			}
+		default:
+			for _, x := range op.Xs {
+				add(d.At(x))
+			}
+		}
 	}
+}
+
+// keyText is the JSON object-key text of a key (what encoding/json sorts by).
+func keyText[E cmp.Ordered](k E) string {
+	b, _ := json.Marshal(map[E]int{k: 0})
+	dec := json.NewDecoder(bytes.NewReader(b))
+	dec.Token()
+	t, _ := dec.Token()
+	s, _ := t.(string)
+	return s
 }
 
 // Len is the number of elements the model holds.
@@ -274,8 +369,12 @@ func GenOps(t *rapid.T, kind string, n, maxN int) []Op {
 	cnt := rapid.IntRange(0, maxN).Draw(t, "nops")
 	kv := all.KeyValue(kind)
 	for i := 0; i < cnt; i++ {
-		switch dom.Weighted(t, "op", 1, 30, 8, 22, 25, 1) {
+		switch dom.Weighted(t, "op", 1, 30, 8, 22, 25, 1, 3) {
 		case 0:
+		case 6:
+			if !noLoad(kind, n) {
+				ops = append(ops, Op{O: "load", Xs: rapid.SliceOfN(rapid.IntRange(0, n-1), 0, 9).Draw(t, "doc")})
+			}
 		case 1:
 			ops = append(ops, Op{O: "add", X: rapid.IntRange(0, n-1).Draw(t, "x")})
 		case 2:
